@@ -59,7 +59,7 @@ Lemma cfg_panic_free_parts cfg w r :
   panic_free (handler_of cfg r) = true.
 Proof.
   unfold cfg_has_panic. intros H.
-  apply orb_false_iff in H as [H _]. apply orb_false_iff in H as [H Hh]. apply orb_false_iff in H as [H Hr]. apply orb_false_iff in H as [Hc Hs].
+  apply orb_false_iff in H as [H _]. apply orb_false_iff in H as [H _]. apply orb_false_iff in H as [H Hh]. apply orb_false_iff in H as [H Hr]. apply orb_false_iff in H as [Hc Hs].
   split; [|split; [|split]].
   - now apply existsb_false_forallb.
   - unfold sfilters_of. destruct (assoc (s_root w) (d_sfilters cfg)) as [l|] eqn:E; [|reflexivity].
@@ -96,7 +96,7 @@ Theorem dispatch_events cfg req already s :
 Proof.
   intros Hpf Hnp. unfold dispatch, dispatch_body, expected_events, route_request in *.
   assert (Hcp : cond_panic_hit O cfg req = false).
-  { unfold cfg_has_panic in Hpf. apply orb_false_iff in Hpf as [_ Hc]. unfold cond_panic_hit.
+  { unfold cfg_has_panic in Hpf. apply orb_false_iff in Hpf as [Hpf _]. apply orb_false_iff in Hpf as [_ Hc]. unfold cond_panic_hit.
     destruct (d_condpanic cfg); [|discriminate]. cbn [existsb andb].
     destruct (str_eqb (hget req H_CondPanic) (L "1")); [|reflexivity]. cbn [andb].
     induction (path_candidates O (d_table cfg) req) as [|x l IH]; [reflexivity|exact IH]. }
@@ -127,16 +127,41 @@ Proof.
 Qed.
 
 Theorem serve_events cfg en req s :
+  routed_request cfg req ->
   cfg_has_panic cfg = false ->
   route_request O (d_table cfg) req <> RPanic ->
   exists s', serve O cfg en req s = Done s' /\ slog s' = slog s ++ expected_events O cfg req.
 Proof.
-  intros Hpf Hnp. unfold serve. destruct en; [now apply dispatch_events|].
+  intros Hrt Hpf Hnp. unfold serve, mux_target. rewrite Hrt. destruct en; [now apply dispatch_events|].
   destruct (negb (d_encoding cfg)); [now apply dispatch_events|].
   match goal with |- context [dispatch O cfg req ?a ?x] =>
     destruct (dispatch_events cfg req a x Hpf Hnp) as (s1 & E1 & L1) end.
   rewrite E1. eexists. split; [reflexivity|]. rewrite slog_close_comp, L1.
   destruct (wants_compressed req s); reflexivity.
+Qed.
+
+(* HandleWithFilter: the container filters run once around the plain handler, in order; Handle: none *)
+Theorem plain_events cfg wf script req s :
+  forallb fscript_panic_free (d_cfilters cfg) = true -> panic_free script = true ->
+  exists s', handle_plain cfg wf script req s = Done s' /\
+             slog s' = slog s ++ (if wf then chain_events (d_cfilters cfg) [] else []).
+Proof.
+  intros Hc Hs. unfold handle_plain.
+  set (s1 := if match st_comp s with Some _ => true | None => false end then s
+             else if d_encoding cfg then match wants_compressed req s with Some c => install c s | None => s end else s).
+  assert (Hs1 : slog s1 = slog s).
+  { subst s1. destruct (st_comp s); [reflexivity|]. destruct (d_encoding cfg); [|reflexivity].
+    destruct (wants_compressed req s); reflexivity. }
+  assert (Htgt : forall s0, exists s2, run_actions script s0 = Done s2 /\ slog s2 = slog s0 ++ []).
+  { intros s0. destruct (slog_run_actions script s0 Hs) as (s2 & E & L). exists s2. now rewrite app_nil_r. }
+  destruct wf.
+  - destruct (d_cfilters cfg) as [|f fs] eqn:Ef.
+    + destruct (Htgt s1) as (s2 & E & L). rewrite E. eexists. split; [reflexivity|].
+      rewrite slog_close_comp, L, Hs1. reflexivity.
+    + rewrite <- Ef in *. destruct (run_chain_events (d_cfilters cfg) (run_actions script) [] s1 Hc Htgt) as (s2 & E & L).
+      rewrite E. eexists. split; [reflexivity|]. now rewrite slog_close_comp, L, Hs1.
+  - destruct (Htgt s1) as (s2 & E & L). rewrite E. eexists. split; [reflexivity|].
+    rewrite slog_close_comp, L, Hs1. reflexivity.
 Qed.
 
 (* ------------------------------------------------------------------ *)
@@ -246,10 +271,68 @@ Proof.
       unfold balanced. rewrite Dc. split; [split; [lia|reflexivity]|]. split; [lia|]. split; [intros H; discriminate H|].
       intros c1 cl H. injection H as <- <-. split; [reflexivity|]. split; [lia|]. split; [exact Hw|].
       exists w, r0. split; assumption. }
-  unfold serve. destruct en.
+  (* a plain handler (Handle / HandleWithFilter) in place of dispatch: the same books *)
+  assert (Hplain_books : forall wf script s0, book (state_of
+            (match wf, d_cfilters cfg with
+             | true, _ :: _ => run_chain (d_cfilters cfg) (run_actions script) s0
+             | _, _ => run_actions script s0
+             end)) = book s0).
+  { intros wf script s0. destruct wf; [destruct (d_cfilters cfg) as [|f fs] eqn:Ef|].
+    - apply book_run_actions.
+    - apply book_run_chain. intros s1. apply book_run_actions.
+    - apply book_run_actions. }
+  assert (Hplain : forall wf script s0,
+            let r := handle_plain cfg wf script req s0 in
+            book (state_of r) =
+              match comp_shape s0 with
+              | Some (c, false) => (st_acq s0, S (st_rel s0), Some (c, true), st_recovered s0)
+              | Some (c, true) => book s0
+              | None => if d_encoding cfg then
+                          match wants_compressed req s0 with
+                          | Some c => (S (st_acq s0), S (st_rel s0), Some (c, true), st_recovered s0)
+                          | None => book s0
+                          end
+                        else book s0
+              end).
+  { intros wf script s0. cbn zeta. unfold handle_plain.
+    set (already := match st_comp s0 with Some _ => true | None => false end).
+    set (s1 := if already then s0 else if d_encoding cfg then match wants_compressed req s0 with Some c => install c s0 | None => s0 end else s0).
+    pose proof (Hplain_books wf script s1) as Hb1.
+    match goal with |- book (state_of (match ?r with Done _ => _ | Panicked _ _ => _ end)) = _ => set (rr := r) in * end.
+    assert (Hfin : book (state_of match rr with Done s' => Done (close_comp s') | Panicked m s' => Panicked m (close_comp s') end)
+                   = book (close_comp (state_of rr))) by (destruct rr; reflexivity).
+    rewrite Hfin, book_close_comp. unfold book in Hb1. injection Hb1 as B1 B2 B3 B4. rewrite B3. unfold book. rewrite B1, B2, B3, B4.
+    subst s1 already. unfold comp_shape. destruct (st_comp s0) as [[[c ch] [|]]|] eqn:Ec; cbn; rewrite ?Ec; try reflexivity.
+    destruct (d_encoding cfg); [|cbn; now rewrite Ec]. destruct (wants_compressed req s0); cbn; [reflexivity|now rewrite Ec]. }
+  unfold serve, mux_target. destruct en.
   - destruct (Hdisp s Hb Hn) as (B & Le & Nn & Sm). split; [exact B|]. split; [exact Le|]. split; [exact Nn|].
     intros c cl H. destruct (Sm c cl H) as (X1 & X2 & X3 & X4). auto.
-  - destruct (d_encoding cfg) eqn:Eenc; cbn [negb].
+  - destruct (assoc (rq_path req) (d_plain cfg)) as [[wf script]|] eqn:Epl.
+    { (* the mux hands the request to a plain handler *)
+      destruct (d_encoding cfg) eqn:Eenc; cbn [negb].
+      - destruct (wants_compressed req s) as [c0|] eqn:Ew.
+        + pose proof (Hplain wf script (install c0 s)) as Hp. cbn zeta in Hp. cbn [install st_comp] in Hp |- *.
+          unfold comp_shape in Hp. cbn [install st_comp st_acq st_rel st_recovered] in Hp.
+          set (rd := handle_plain cfg wf script req (install c0 s)) in *.
+          assert (Hfin : book (state_of match rd with Done s' => Done (close_comp s') | Panicked m s' => Panicked m (close_comp s') end)
+                         = book (close_comp (state_of rd))) by (destruct rd; reflexivity).
+          rewrite book_close_comp in Hfin. unfold book in Hp. injection Hp as P1 P2 P3 P4. rewrite P3 in Hfin.
+          unfold book in Hfin. injection Hfin as F1 F2 F3 _.
+          unfold balanced. rewrite F3, P3. split; [split; [lia|reflexivity]|]. split; [lia|]. split; [intros H; discriminate H|].
+          intros c1 cl H. injection H as <- <-. split; [reflexivity|]. split; [lia|]. split; [reflexivity|]. now left.
+        + pose proof (Hplain wf script s) as Hp. cbn zeta in Hp. rewrite Hn, ?Eenc, Ew in Hp.
+          set (rd := handle_plain cfg wf script req s) in *.
+          assert (Hfin : book (state_of match rd with Done s' => Done (close_comp s') | Panicked m s' => Panicked m (close_comp s') end)
+                         = book (close_comp (state_of rd))) by (destruct rd; reflexivity).
+          rewrite book_close_comp in Hfin. unfold book in Hp. injection Hp as P1 P2 P3 P4. rewrite P3, Hn in Hfin.
+          unfold book in Hfin. injection Hfin as F1 F2 F3 _.
+          unfold balanced. rewrite F3, P3, Hn. split; [split; [lia|exact Logic.I]|]. split; [lia|]. split; [intros _; lia|].
+          intros c1 cl H. discriminate H.
+      - pose proof (Hplain wf script s) as Hp. cbn zeta in Hp. rewrite Hn, ?Eenc in Hp.
+        unfold book in Hp. injection Hp as P1 P2 P3 P4.
+        unfold balanced. rewrite P3, Hn. split; [split; [lia|exact Logic.I]|]. split; [lia|]. split; [intros _; lia|].
+        intros c1 cl H. discriminate H. }
+    destruct (d_encoding cfg) eqn:Eenc; cbn [negb].
     2:{ destruct (Hdisp s Hb Hn) as (B & Le & Nn & Sm). split; [exact B|]. split; [exact Le|]. split; [exact Nn|].
         intros c cl H. destruct (Sm c cl H) as (X1 & X2 & X3 & X4). auto. }
     destruct (wants_compressed req s) as [c0|] eqn:Ew.
